@@ -144,8 +144,10 @@ func (r *Run) solveAll() {
 	}
 	sem := make(chan struct{}, 12)
 	done := make(chan struct{}, len(r.pending))
-	for _, p := range r.pending {
+	for k, p := range r.pending {
 		p := p
+		// a function may be in the plan twice (two plug-ins): every VC gets file names of its own
+		p.tag = fmt.Sprintf("%s_%03d", p.tag, k)
 		sem <- struct{}{}
 		go func() {
 			dischargeBatch(p.vc, r.SmtDir, p.tag, 4, quick, slow)
